@@ -9,7 +9,7 @@ def record_stream_traces(wd, tier, seed, name="st", extra=None, cross=False):
     q = tier == "quick"
     a = ["stream-record", "--seed", seed, "--streams", 30 if q else 400, "--sweeps", 16 if q else 64,
          "--window", 16 if q else 64, "--maxlen", 8000 if q else 60000, "--maxtok", 6000 if q else 40000,
-         "--samples", 1, "--samplemax", 30000 if q else 300000, "--out", tr]
+         "--samples", 1, "--samplemax", 30000 if q else 300000, "--smallblocks", 10 if q else 40, "--out", tr]
     if extra:
         a += ["--extra", extra]
     if cross:
